@@ -170,11 +170,23 @@ Proof.
   intro E. induction bs as [|[k x] r IH]; cbn [let_loop]; [apply eqM_refl|].
   apply eqM_bind; [apply R; exact E|intros [v f]; apply eqM_bind; [exact IH|intro; apply eqM_refl]].
 Qed.
-Lemma invoke_loop_equiv a b t parts : sc_equiv a b -> eqM (invoke_loop rec a t parts) (invoke_loop rec b t parts).
+Lemma kw_loop_equiv a b t kw : sc_equiv a b -> eqM (kw_loop rec a t kw) (kw_loop rec b t kw).
 Proof.
-  intro E. induction parts as [|[[|] ss] r IH]; cbn [invoke_loop]; [apply eqM_refl| |].
-  - apply eqM_bind; [apply each_loop_equiv; exact E|intro xs; apply eqM_bind; [exact IH|intro; apply eqM_refl]].
-  - apply eqM_bind; [exact IH|intro; apply eqM_refl].
+  intro E. induction kw as [|[k x] r IH]; cbn [kw_loop]; [apply eqM_refl|].
+  apply eqM_bind; [apply R; exact E|intros [v f]; apply eqM_bind; [exact IH|intro; apply eqM_refl]].
+Qed.
+Lemma invoke_loop_equiv a b t parts : sc_equiv a b -> forall accA accK,
+  eqM (invoke_loop rec a t parts accA accK) (invoke_loop rec b t parts accA accK).
+Proof.
+  intro E. induction parts as [|[[tag ss] kw] r IH]; intros accA accK; cbn [invoke_loop]; [apply eqM_refl|].
+  destruct tag as [|[|tag]].
+  - apply IH.
+  - apply eqM_bind; [apply each_loop_equiv; exact E|intro xs].
+    apply eqM_bind; [apply kw_loop_equiv; exact E|intro ks; apply IH].
+  - apply eqM_bind.
+    + destruct ss as [|x0 ?]; [apply eqM_refl|]. apply eqM_bind; [apply R; exact E|intros [v f]; apply eqM_refl].
+    + intro xs. apply eqM_bind; [|intro ks; apply IH].
+      destruct kw as [|[k0 x0] ?]; [apply eqM_refl|]. apply eqM_bind; [apply R; exact E|intros [v f]; apply eqM_refl].
 Qed.
 Lemma optional_defaults_equiv own a b t es : sc_equiv a b -> forall res,
   eqM (optional_defaults rec own a t es res) (optional_defaults rec own b t es res).
@@ -267,10 +279,11 @@ Proof.
   - (* SPipe *) apply eqM_bind; [apply chain_loop_equiv; auto|intro; apply eqM_refl].
   - (* SCoalesce *) apply eqM_bind; [apply coalesce_loop_equiv; auto|]. intros [v|]; [apply eqM_refl|].
     destruct default; [apply eqM_bind; [apply AV|intro; apply eqM_refl]|apply eqM_refl].
-  - (* SCall *) apply eqM_bind; [apply AV|]. intro fv. apply eqM_bind; [apply AV|intro; apply eqM_refl].
+  - (* SCall *) apply eqM_bind; [apply AV|]. intro fv. apply eqM_bind; [apply AV|intro av].
+    apply eqM_bind; [|intro; apply eqM_refl]. destruct kw; [apply eqM_refl|]. apply eqM_bind; [apply AV|intro; apply eqM_refl].
   - (* SInvoke *) apply eqM_bind.
     + destruct s; try apply eqM_refl; (apply eqM_bind; [apply R; auto|intros [? ?]; apply eqM_refl]).
-    + intro fv. apply eqM_bind; [apply invoke_loop_equiv; auto|intro; apply eqM_refl].
+    + intro fv. apply eqM_bind; [apply invoke_loop_equiv; auto|intros [? ?]; apply eqM_refl].
   - (* SRef *) destruct sub.
     + apply eqM_bind; [apply R; auto|intros [? ?]; apply eqM_refl].
     + cbn [lookup_ref]. rewrite Hr. destruct (match str_assoc name (frefs (set_arg false own0)) with Some v => Some v | None => lookup_ref name b end);
